@@ -97,8 +97,13 @@ CHILD_ATTRS = ('children', 'all_children')
 def leaf_test(test: ast.AST, pol: bool = True) -> Optional[Tuple[ast.AST, bool]]:
     """(task expr, is_leaf) for an emptiness test of X.children / X.all_children"""
     et = empty_test(test, pol)
-    if et and isinstance(et[0], ast.Attribute) and et[0].attr in CHILD_ATTRS:
-        return et[0].value, et[1]
+    if et:
+        x = et[0]
+        for _ in range(2):          # len(list(t.children)) == 0
+            if isinstance(x, ast.Call) and isinstance(x.func, ast.Name) and x.func.id in ('list', 'tuple') and len(x.args) == 1:
+                x = x.args[0]
+        if isinstance(x, ast.Attribute) and x.attr in CHILD_ATTRS:
+            return x.value, et[1]
     return None
 
 
@@ -120,7 +125,7 @@ def none_test(test: ast.AST, pol: bool = True) -> Optional[Tuple[ast.AST, bool]]
 RELS = ('predecessors', 'successors', 'parent', 'all_parents', 'children', 'all_children', 'all_predecessors',
         'all_successors')
 PASS_THROUGH = ('list', 'tuple', 'set', 'sorted', 'reversed', 'frozenset', 'iter', '_to_list', '_ImmutableTaskList',
-                '_unique_tasks')
+                '_unique_tasks', 'deque')
 
 Paths = Dict[tuple, List[frozenset]]   # relation path (ops applied to the task parameter) -> DNF of the conditions
 UNCOND = [frozenset()]
@@ -281,6 +286,14 @@ class RelEval:
         self.flow = flow_of(f)
         self.leaf_helper_of = leaf_helper_of      # callable(call node, func) -> bool
         self._busy: Set[str] = set()
+        # explicit-stack traversals: `cur = pending.pop()` -> {pending: cur}
+        self._worklists: Dict[str, str] = {}
+        for n in walk_no_nested(f.node):
+            if isinstance(n, ast.Assign) and len(n.targets) == 1 and isinstance(n.targets[0], ast.Name):
+                m = match("$w.pop($*a)", n.value) or match("$w.popleft()", n.value)
+                if m and isinstance(m['w'], ast.Name):
+                    self._worklists[m['w'].id] = n.targets[0].id
+        self._at = None
 
     # ---- expressions
     def ev(self, e: ast.AST, env: Dict[str, Paths], at) -> Paths:
@@ -364,6 +377,9 @@ class RelEval:
         pend = []
         for a, p in facts.split_conj(test, pol):
             lt = leaf_test(a, p)
+            if lt and isinstance(lt[0], ast.Name) and lt[0].id not in env and lt[0].id in self._worklists.values() \
+                    and self._at is not None:
+                env[lt[0].id] = self.var(lt[0].id, self._at, a)        # the popped element of an explicit-stack traversal
             if lt and isinstance(lt[0], ast.Name) and (lt[0].id in env or lt[0].id == self.task_param):
                 cur = env.get(lt[0].id) or {(): list(UNCOND)}
                 env[lt[0].id] = _ext(cur, 'leaf?' if lt[1] else 'nonleaf?')
@@ -448,6 +464,10 @@ class RelEval:
                 base = {(): list(UNCOND)}
                 continue
             if d.kind == 'assign' and d.value is not None:
+                mw = match("$w.pop($*a)", d.value) or match("$w.popleft()", d.value)
+                if mw and isinstance(mw['w'], ast.Name) and self._worklists.get(mw['w'].id) == name:
+                    base = _union(base, self._worklist_elements(mw['w'].id, name, node))
+                    continue
                 if match(f"{name}.parent", d.value):
                     closure = True      # t = t.parent inside a loop: climbs the ancestors
                     work += fl.reaching(name, d.node)
@@ -479,6 +499,63 @@ class RelEval:
             out = _union(out, _ext(out, 'all_parents'))
         return out
 
+    def _worklist_elements(self, wl: str, cur: str, node) -> Paths:
+        """everything an explicit-stack traversal `pending = [task]; while pending: cur = pending.pop(); ..
+        pending.extend(cur.children)` ever pops: the seeds and, when the children of the popped element are pushed back, all
+        their descendants"""
+        fl = self.flow
+        ex = Expander(self.ctx.prog, self.f, self.ctx.typer, inline=False)
+        seeds: Paths = {}
+        pushes_children = False
+
+        def strip(a):
+            for _ in range(4):
+                if isinstance(a, ast.Call) and isinstance(a.func, ast.Name) and a.func.id in ('reversed', 'list', 'tuple', 'sorted',
+                                                                                             'iter') and len(a.args) == 1:
+                    a = a.args[0]
+            return a
+
+        def feed(cn, arg, single):
+            nonlocal seeds, pushes_children
+            try:
+                ax = ex.expand(arg, cn, stop={cur, self.task_param})
+            except Exception:       # noqa: BLE001
+                ax = arg
+            ax = strip(ax)
+            if any(isinstance(x, ast.Name) and x.id == cur for x in ast.walk(ax)):
+                if not single and match(f"{cur}.children", ax):
+                    pushes_children = True
+                    return
+                raise Unknown(arg, f"`{src(arg)[:60]}` is pushed on the work list `{wl}`: only the children of the popped element "
+                                   f"are understood")
+            seeds = _union(seeds, self.contribution(cn, arg, None, single))
+
+        for d in fl.defs_of(wl):
+            if d.kind == 'assign' and d.value is not None:
+                feed(d.node, d.value, False)
+            elif d.kind == 'aug' and isinstance(d.stmt.op, ast.Add):
+                feed(d.node, d.stmt.value, False)
+            else:
+                raise Unknown(node, f"work list `{wl}` is bound by a {d.kind} definition")
+        for n in walk_no_nested(self.f.node):
+            if isinstance(n, ast.Call) and isinstance(n.func, ast.Attribute) and isinstance(n.func.value, ast.Name) \
+                    and n.func.value.id == wl and n.func.attr in ('append', 'extend', 'insert', 'appendleft', 'extendleft'):
+                cn = self.cfg.node_containing(n)
+                if cn is None or not self.cfg.is_reachable(cn) or not n.args:
+                    continue
+                feed(cn, n.args[-1], n.func.attr in ('append', 'insert', 'appendleft'))
+        if not seeds:
+            raise Unknown(node, f"work list `{wl}` has no understood initial content")
+        return _union(seeds, _ext(seeds, 'all_children')) if pushes_children else seeds
+
+    @staticmethod
+    def _nonempty_name(t: ast.AST) -> Optional[str]:
+        for pat in ("len($x) > 0", "len($x) != 0", "len($x) >= 1", "0 < len($x)", "len($x)", "$x"):
+            m = match(pat, t)
+            if m and isinstance(m['x'], ast.Name):
+                return m['x'].id
+        return None
+
     def contribution(self, cn, expr: ast.AST, ref, single: bool = False) -> Paths:
         """paths of `expr` evaluated at cfg node cn: enclosing for-loops bind their targets, conditions of cn that do not
         also hold at the reference node `ref` are applied"""
@@ -492,8 +569,20 @@ class RelEval:
         for t, p in self.cfg.conditions(cn):
             if (id(t), p) in base:
                 continue
-            if not p and any(isinstance(w, ast.While) and w.test is t for w in walk_no_nested(self.f.node)):
+            is_while_test = any(isinstance(w, ast.While) and w.test is t for w in walk_no_nested(self.f.node))
+            if not p and is_while_test:
                 continue        # exit condition of a while loop that lies behind: says nothing about what the loop collected
+            if p and is_while_test and self._nonempty_name(t) in self._worklists:
+                continue        # `while pending:` of an explicit-stack traversal: holds whenever something is popped
+            if self._worklists:
+                # conditions on a local alias of the popped element (`children = list(cur.children); if len(children) == 0`)
+                tn = self.cfg.node_containing(t)
+                try:
+                    t = Expander(self.ctx.prog, self.f, self.ctx.typer, inline=False).expand(
+                        t, tn, stop=set(env) | set(self._worklists.values()) | {self.task_param}) if tn is not None else t
+                except Exception:       # noqa: BLE001
+                    pass
+            self._at = cn
             pend += self._apply_cond(t, p, env)
         return self._finish(self.ev(expr, env, cn), pend, env, cn)
 
